@@ -2062,6 +2062,9 @@ def list_method(I, recv, name, args, kwargs):
         return x
     if name == 'copy':
         return snapshot(recv)
+    if name == 'extend' and isinstance(args[0], (VSeq, VList, VTuple)):
+        recv.t = z3.Concat(recv.t, seq_of(I, args[0], recv.ty).t)
+        return NONE
     raise Unsupported('list.%s (symbolic)' % name)
 
 
